@@ -28,7 +28,8 @@ REAL = ['py4hw.emulation.HILWrapperUART.CMDRequest', 'py4hw.emulation.HILWrapper
 STUB = ['character producer', 'response consumer', 'DUT output table']
 ASSUMPTIONS = ['a new O<n>? is only sent after the previous response\'s "!" was taken (the encoder ignores start while busy; the statement does not forbid that)',
                'the consumer asserts READY independently of VALID (the encoder waits for READY before raising VALID)']
-PROBES = ['cmd_I', 'cmd_V', 'cmd_O', 'cmd_K', 'K_zero', 'long_number', 'back_to_back_chars', 'consumer_stall', 'response', 'leading_zero_digit']
+PROBES = ['cmd_I', 'cmd_V', 'cmd_O', 'cmd_K', 'K_zero', 'long_number', 'back_to_back_chars', 'consumer_stall', 'response', 'leading_zero_digit',
+          'start_in_first_idle_cycle', 'more_digits_than_value_bits', 'K_count_wider_than_wires']
 
 HEX = '0123456789ABCDEF'
 
@@ -38,7 +39,8 @@ def gen(rs, tier, index):
     mode = rng.choice(['req', 'req', 'resp', 'chain'])
     scn = {'mode': mode, 'prod_seed': rs.sub('prod'), 'cons_seed': rs.sub('cons'), 'perm_seed': rs.sub('perm'),
            'p_gap': rng.choice([0.0, 0.3, 0.8]), 'p_ready': rng.choice([1.0, 0.7, 0.3, 0.1]),
-           'wi': rng.choice([4, 8, 16]), 'wv': rng.choice([8, 16, 32, 40])}
+           'wi': rng.choice([1, 2, 4, 4, 8, 16]), 'wv': rng.choice([1, 3, 4, 8, 16, 32, 40]),
+           'wvin': rng.choice([32, 32, 32, 4, 8, 12, 20])}      # width of the value wire of the encoder (digits beyond it are 0)
 
     def number(maxdigits=10):
         nd = rng.choice([1, 1, 2, 3, 4, 8, maxdigits])
@@ -48,12 +50,13 @@ def gen(rs, tier, index):
         for _ in range(rng.randint(1, 8)):
             size = rng.randint(1, 8)
             v = rng.choice([0, (1 << (4 * size)) - 1, rng.getrandbits(4 * size), rng.getrandbits(32)])
-            cmds.append({'t': 'R', 'size': size, 'v': v})
+            # gap: idle cycles between the handshake of '!' and the next one-cycle start pulse (0 = the first idle cycle)
+            cmds.append({'t': 'R', 'size': size, 'v': v, 'gap': rng.choice([0, 0, 1, 2, 3, 7])})
     else:
         for _ in range(rng.randint(1, 12)):
             t = rng.choice(['I', 'V', 'O', 'K'] if mode == 'chain' else ['I', 'V', 'O', 'K', 'I', 'V'])
             if t == 'K':
-                n = rng.choice([0, 1, 2, 5, 17])
+                n = rng.choice([0, 1, 2, 5, 17, 33])
                 cmds.append({'t': 'K', 'n': '%X' % n if rng.random() < 0.7 else '%03X' % n})
             else:
                 cmds.append({'t': t, 'n': number()})
@@ -83,7 +86,8 @@ def run_req(scn, log, st, chain):
     clk_pulse, start_resp = hw.wire('clk_pulse'), hw.wire('start_resp')
     CMDRequest(hw, 'req', ready, valid, c, index_in, v_in, index_out, set_ii, set_v, set_io, clk_pulse, start_resp)
     if chain:
-        vin, size = hw.wire('vin', 32), hw.wire('size', 4)
+        wvin = scn.get('wvin', 32)
+        vin, size = hw.wire('vin', wvin), hw.wire('size', 4)
         r_ready, r_valid, r_v = hw.wire('r_ready'), hw.wire('r_valid'), hw.wire('r_v', 8)
         CMDResponse(hw, 'resp', vin, size, start_resp, r_ready, r_valid, r_v)
         size.put(scn['size'])
@@ -99,6 +103,8 @@ def run_req(scn, log, st, chain):
         st.probe('cmd_' + cm['t'])
         if len(cm['n']) >= 8:
             st.probe('long_number')
+        if cm['t'] == 'K' and n >= (1 << max(wi, wv)):
+            st.probe('K_count_wider_than_wires')
         if cm['t'] == 'I':
             expect.append(('set_index_in', n & ((1 << wi) - 1)))
         elif cm['t'] == 'V':
@@ -107,7 +113,7 @@ def run_req(scn, log, st, chain):
             expect.append(('set_index_out', n & ((1 << wi) - 1)))
             expect.append(('start_resp', None))
             if chain:
-                val = scn['table'][(n & ((1 << wi) - 1)) % 16]
+                val = scn['table'][(n & ((1 << wi) - 1)) % 16] & ((1 << scn.get('wvin', 32)) - 1)
                 digs = ''.join(HEX[(val >> (4 * k)) & 0xF] for k in range(scn['size'] - 1, -1, -1))
                 expect_resp.append('=' + digs + '!')
         else:
@@ -199,7 +205,8 @@ def run_req(scn, log, st, chain):
 
 def run_resp(scn, log, st):
     hw = py4hw.HWSystem()
-    vin, size, start = hw.wire('vin', 32), hw.wire('size', 4), hw.wire('start_resp')
+    wvin = scn.get('wvin', 32)
+    vin, size, start = hw.wire('vin', wvin), hw.wire('size', 4), hw.wire('start_resp')
     ready, valid, v = hw.wire('ready'), hw.wire('valid'), hw.wire('v', 8)
     CMDResponse(hw, 'resp', vin, size, start, ready, valid, v)
     with quiet():
@@ -208,7 +215,9 @@ def run_resp(scn, log, st):
     crng, prng = random.Random(scn['cons_seed']), random.Random(scn['prod_seed'])
     t = 0
     for ri, cm in enumerate(scn['cmds']):
-        val = cm['v'] & 0xFFFFFFFF
+        val = cm['v'] & ((1 << wvin) - 1)
+        if 4 * cm['size'] > wvin:
+            st.probe('more_digits_than_value_bits')
         digs = ''.join(HEX[(val >> (4 * k)) & 0xF] for k in range(cm['size'] - 1, -1, -1))
         if digs[0] == '0':
             st.probe('leading_zero_digit')
@@ -222,7 +231,7 @@ def run_resp(scn, log, st):
         start.put(0)
         # the value may change after it was sampled
         if prng.random() < 0.5:
-            vin.put(prng.getrandbits(32))
+            vin.put(prng.getrandbits(wvin))
         low = 0
         budget = 40 + 40 * (cm['size'] + 2)
         n = 0
@@ -248,10 +257,12 @@ def run_resp(scn, log, st):
         if got != exp:
             cls = 'progress' if exp.startswith(got) else 'chars'
             raise Violation('codec', 'encode:%s' % cls, ri, 'response %d: value %#x size %d nibbles: got %r expected %r' % (ri, val, cm['size'], got, exp))
-        # let the encoder return to idle
+        # the next start pulse comes `gap` cycles after the handshake of '!' (0: in the first idle cycle)
         ready.put(1)
+        if cm.get('gap', 3) == 0 and ri + 1 < len(scn['cmds']):
+            st.probe('start_in_first_idle_cycle')
         with quiet():
-            sim.clk(3)
+            sim.clk(cm.get('gap', 3))
     seams.check_prepared_empty('end', t)
     seams.check_wire_ranges(hw, 'end', t)
     if len(scn['cmds']) >= 2 and st.probes.get('consumer_stall'):
@@ -264,7 +275,14 @@ def shrink(scn):
         yield dict(scn, p_ready=1.0)
     if scn['p_gap'] != 0.0:
         yield dict(scn, p_gap=0.0)
+    if scn.get('wvin', 32) != 32:
+        yield dict(scn, wvin=32)
     for i, cm in enumerate(scn['cmds']):
+        if cm.get('gap') not in (None, 3):
+            c2 = dict(scn)
+            c2['cmds'] = list(scn['cmds'])
+            c2['cmds'][i] = dict(cm, gap=3)
+            yield c2
         if 'n' in cm and len(cm['n']) > 1:
             c2 = dict(scn)
             c2['cmds'] = list(scn['cmds'])
